@@ -38,6 +38,8 @@ BIN_PAIRS = [
     ("edge_betweenness_wei|bin", bct.edge_betweenness_wei, bct.edge_betweenness_bin, False),
     ("efficiency_wei|bin(global)", bct.efficiency_wei, bct.efficiency_bin, True),
     ("efficiency_wei|bin(local)", lambda W: bct.efficiency_wei(W, local=True), lambda W: bct.efficiency_bin(W, local=True), True),
+    ("efficiency_wei('global')|bin(global)", lambda W: bct.efficiency_wei(W, local="global"), bct.efficiency_bin, True),
+    ("efficiency_wei('local')|bin(local)", lambda W: bct.efficiency_wei(W, local="local"), lambda W: bct.efficiency_bin(W, local=True), True),
     ("strengths_und|degrees_und", bct.strengths_und, bct.degrees_und, True),
     ("strengths_dir|degrees_dir", bct.strengths_dir, _third(bct.degrees_dir), False),
     ("assortativity_wei|bin(0)", lambda W: bct.assortativity_wei(W, 0), lambda W: bct.assortativity_bin(W, 0), True),
@@ -68,11 +70,17 @@ RT, AT = 1e-10, 1e-12
 
 
 _ORDER = ["C"]
+_DTYPE = ["float64"]
 
 
-def _pair(ctx, fails, case, name, f1, f2, X1, X2):
-    o1 = ctx.call(f1, gen.layout(X1.copy(), _ORDER[0]))
-    o2 = ctx.call(f2, gen.layout(X2.copy(), _ORDER[0]))
+def _pair(ctx, fails, case, name, f1, f2, X1, X2, store=None):
+    dt = _DTYPE[0]
+    if dt != "float64" and name.startswith("efficiency_wei"):
+        dt = "float64"          # efficiency_wei inverts its argument: documented for weights, i.e. floating point
+    o1 = ctx.call(f1, gen.layout(X1.astype(dt), _ORDER[0]))
+    o2 = ctx.call(f2, gen.layout(X2.astype(dt), _ORDER[0]))
+    if store is not None:
+        store.append((name, f1, f2, X1, X2, dt, o1, o2))
     diff, how = compare.outcomes_equal(o1, o2, RT, AT)
     ctx.notes[how] += 1
     if how == "both_raise":
@@ -84,6 +92,10 @@ def _pair(ctx, fails, case, name, f1, f2, X1, X2):
 def check(case, ctx):
     cls = case["class"]
     _ORDER[0] = case.get("order", "C")
+    binary01 = bool(np.all((np.array(case["W"]) == 0) | (np.array(case["W"]) == 1)))
+    _DTYPE[0] = case.get("dtype", "float64") if binary01 else "float64"
+    ctx.label("dtype:" + _DTYPE[0])
+    done = []
     W = gen.layout(np.array(case["W"], dtype=float), case.get("order"))
     n = len(W)
     fails = []
@@ -113,17 +125,34 @@ def check(case, ctx):
         for name, fw, fb, need_und in BIN_PAIRS:
             if need_und and not sym:
                 continue
-            _pair(ctx, fails, case, name, fw, fb, W, W)
+            _pair(ctx, fails, case, name, fw, fb, W, W, done)
         if sym:
             for name, fd, fu in SYM_BIN_PAIRS:
-                _pair(ctx, fails, case, name, fd, fu, W, W)
+                _pair(ctx, fails, case, name, fd, fu, W, W, done)
     if sym:
         for name, fd, fu in SYM_W_PAIRS:
-            _pair(ctx, fails, case, name, fd, fu, W, W)
+            _pair(ctx, fails, case, name, fd, fu, W, W, done)
     if not binary:
         B = A.astype(float)
         for name, f in BLIND_DIR + (BLIND_UND if sym else []):
-            _pair(ctx, fails, case, "blind:" + name, f, f, W, B)
+            _pair(ctx, fails, case, "blind:" + name, f, f, W, B, done)
+    if fails or not case.get("sandwich"):
+        return fails
+    # history: every routine is called again after a batch of unrelated library calls on matrices of the same size
+    # ("disturbers", with non-default options and infinities); the answers must be exactly the first ones
+    Dinf = np.where(np.isfinite(D), D, np.inf)
+    for dist in (lambda: bct.charpath(Dinf.copy(), include_infinite=False), lambda: bct.charpath(Dinf.copy(), include_diagonal=True),
+                 lambda: bct.threshold_proportional(W.copy(), 0.5), lambda: bct.get_components(np.maximum(W, W.T)),
+                 lambda: bct.distance_wei_floyd(W.copy()), lambda: bct.binarize(W.copy()), lambda: bct.breadthdist(W.copy())):
+        ctx.call(dist)
+    for name, f1, f2, X1, X2, dt, o1, o2 in done:
+        for side, f, X, o in (("first", f1, X1, o1), ("second", f2, X2, o2)):
+            o9 = ctx.call(f, gen.layout(X.astype(dt), _ORDER[0]))
+            d, how = compare.outcomes_equal(o, o9)
+            if d:
+                fails.append(Failure("%s:answer-changes-after-unrelated-calls" % name,
+                                     "%s routine of the pair, same input, before vs after a batch of unrelated library calls: %s" % (side, d), case))
+                return fails
     return fails
 
 
@@ -136,7 +165,8 @@ def cases(draw, nmax):
         W = A.astype(float)
     else:
         W = draw(gen.weights_for(A, draw(st.sampled_from(["dyadic", "float", "tie"])), directed))
-    return {"class": cls, "W": W, "order": draw(st.sampled_from(gen.ORDERS))}
+    return {"class": cls, "W": W, "order": draw(st.sampled_from(gen.ORDERS)), "dtype": draw(st.sampled_from(["int64", "float64"])),
+            "sandwich": draw(st.integers(0, 2)) == 0}
 
 
 _SP = {}
@@ -153,7 +183,8 @@ def _space(tier):
 
 def _exh(tier, lo, hi):
     for n, d, A, k in _space(tier).range(lo, hi):
-        yield {"class": "bin-dir" if d else "bin-und", "W": A.astype(float), "order": gen.ORDERS[k % len(gen.ORDERS)]}
+        yield {"class": "bin-dir" if d else "bin-und", "W": A.astype(float), "order": gen.ORDERS[k % len(gen.ORDERS)], "dtype": ["float64", "int64"][k % 2],
+               "sandwich": k % 7 == 0}
 
 
 _D5 = gen.GraphSpace([(5, True)])
